@@ -876,7 +876,10 @@ class Variable(CanBehaveLikeAVariable[T]):
             if isinstance(domain, HashedIterable):
                 self._domain_ = domain
             if isinstance(domain, SymbolicExpression):
-                new_domain = (v[domain._id_] for v in domain._evaluate__())
+                # the values of another variable or the solutions of another query, filtered by type like any other
+                # supplied domain.
+                new_domain = (v[domain._id_] for v in domain._evaluate__()
+                              if not isinstance(self._type_, type) or isinstance(v[domain._id_].value, self._type_))
             elif not is_iterable(domain):
                 new_domain = [HashedValue(domain)]
             new_domain = new_domain or domain
